@@ -85,7 +85,7 @@ Definition tick (d : Z) : M unit :=
 Definition restart (w : world) : world :=
   let f := init_world (max_len w) (tkinds w) (tlens w) (script w) None None in
   f <| seed := seed w |> <| events := [] |> <| acalls := [] |>
-    <| attempts := attempts w |> <| bcalls := bcalls w |> <| issued := issued w |>.
+    <| attempts := attempts w |> <| bcalls := bcalls w |>.
 
 Definition do_load (cov : coverage) : M unit :=
   w <- get ;;
